@@ -282,9 +282,49 @@ fn check_bare<C: BT>(name: &str, comps: &[f64], obs: &mut Obs) -> PropResult {
     Ok(())
 }
 
-fn check_alpha<C: BT>(name: &str, comps: &[f64], obs: &mut Obs) -> PropResult
+// Does `T: IsWithinBounds` / `B: TryFromColor<A>` exist at all? Asked through autoref specialisation at the concrete types
+// (inside the entry macros), so that a tree without the impl still builds and the absence is reported as what it is: on the
+// pinned tree `Alpha<C, f32>` had no usable impl and `.is_within_bounds()` silently fell through Deref to the colour.
+struct Wr<'a, T: ?Sized>(&'a T);
+trait SpecWithin {
+    fn within(&self) -> Option<bool>;
+}
+impl<'a, T: ?Sized + IsWithinBounds<Mask = bool>> SpecWithin for Wr<'a, T> {
+    fn within(&self) -> Option<bool> {
+        Some(IsWithinBounds::is_within_bounds(self.0))
+    }
+}
+trait FallWithin {
+    fn within(&self) -> Option<bool>;
+}
+impl<'a, T: ?Sized> FallWithin for &Wr<'a, T> {
+    fn within(&self) -> Option<bool> {
+        None
+    }
+}
+struct Tw<A, B>(A, std::marker::PhantomData<B>);
+trait SpecTry<B> {
+    fn try_it(self) -> Option<Result<B, B>>;
+}
+impl<A, B: TryFromColor<A>> SpecTry<B> for Tw<A, B> {
+    fn try_it(self) -> Option<Result<B, B>> {
+        Some(B::try_from_color(self.0).map_err(|e| e.color()))
+    }
+}
+trait FallTry<B> {
+    fn try_it(self) -> Option<Result<B, B>>;
+}
+impl<A, B> FallTry<B> for &Tw<A, B> {
+    fn try_it(self) -> Option<Result<B, B>> {
+        None
+    }
+}
+/// what the probes found for one Alpha value: (is_within_bounds of the value, of the clamped value, of the slice [value, clamped])
+type AlphaWithin = fn(&[f64]) -> Option<(bool, bool, bool)>;
+
+fn check_alpha<C: BT>(name: &str, comps: &[f64], obs: &mut Obs, probe: AlphaWithin) -> PropResult
 where
-    Alpha<C, C::F>: Clamp + ClampAssign + Copy + IsWithinBounds<Mask = bool>,
+    Alpha<C, C::F>: Clamp + ClampAssign + Copy,
 {
     // (On the pinned tree Alpha<C, f32|f64> had no usable IsWithinBounds impl - it asked for `T: IsWithinBounds`, which no
     //  component type provides - and a method call silently fell through Deref to the colour's predicate, ignoring alpha;
@@ -309,10 +349,12 @@ where
         (false, false) => "alpha form: both out",
     });
     let xa = Alpha { color: x, alpha: a };
-    let within = <Alpha<C, C::F> as IsWithinBounds>::is_within_bounds(&xa);
+    let Some((within, clamped_within, slice_within)) = probe(comps) else {
+        pv::fail!("Alpha<{}, {}> does not implement IsWithinBounds: .is_within_bounds() on it resolves through Deref to the colour's predicate and ignores alpha (colour {:?} with alpha {} reports {})", name, <C::F as Flt>::name(), &comps[..n], a64, col_within);
+    };
     ensure!(within == (col_within && alpha_within), "Alpha<{}>{:?}: is_within_bounds = {} but the colour is {} its bounds and alpha {} is {} [0, 1]", name, comps, within, if col_within { "within" } else { "outside" }, a64, if alpha_within { "within" } else { "outside" });
     let c = xa.clamp();
-    ensure!(<Alpha<C, C::F> as IsWithinBounds>::is_within_bounds(&c), "Alpha<{}>{:?}: the clamped value does not report itself within bounds", name, comps);
+    ensure!(clamped_within, "Alpha<{}>{:?}: the clamped value does not report itself within bounds", name, comps);
     let want_a = a64.clamp(0.0, 1.0);
     ensure!(same(&c.color.to_arr(), &x.clamp().to_arr()), "Alpha<{}>::clamp: colour {:?} differs from the bare clamp {:?}", name, c.color.to_arr(), x.clamp().to_arr());
     ensure!(Flt::to64(c.alpha) == want_a, "Alpha<{}>::clamp: alpha {} -> {} expected {}", name, a64, Flt::to64(c.alpha), want_a);
@@ -325,7 +367,7 @@ where
     let cc = c.clamp();
     ensure!(same(&cc.color.to_arr(), &c.color.to_arr()) && Flt::to64(cc.alpha) == Flt::to64(c.alpha), "Alpha<{}>: clamp not idempotent", name);
     let mut sl = [xa, c];
-    ensure!(<[Alpha<C, C::F>] as IsWithinBounds>::is_within_bounds(&sl[..]) == within, "[Alpha<{}>]::is_within_bounds differs from the element-wise predicate", name);
+    ensure!(slice_within == within, "[Alpha<{}>]::is_within_bounds differs from the element-wise predicate", name);
     sl[..].clamp_assign();
     ensure!(same(&sl[0].color.to_arr(), &c.color.to_arr()) && Flt::to64(sl[0].alpha) == Flt::to64(c.alpha), "[Alpha<{}>]::clamp_assign differs from clamp", name);
     Ok(())
@@ -341,7 +383,21 @@ struct TypeEntry {
 }
 macro_rules! entry {
     ($name:literal, $ty:ty) => {
-        TypeEntry { name: $name, n: 0, spec: <$ty as BT>::spec, bare: check_bare::<$ty>, alpha: check_alpha::<$ty> }
+        TypeEntry {
+            name: $name,
+            n: 0,
+            spec: <$ty as BT>::spec,
+            bare: check_bare::<$ty>,
+            alpha: |name, comps, obs| {
+                check_alpha::<$ty>(name, comps, obs, |comps: &[f64]| {
+                    let n = comps.len() - 1;
+                    let xa = Alpha { color: <$ty as BT>::from_arr(&comps[..n]), alpha: <<$ty as BT>::F as Flt>::from64(comps[n]) };
+                    let c = xa.clamp();
+                    let sl = [xa, c];
+                    Some(((&Wr(&xa)).within()?, (&Wr(&c)).within()?, (&Wr(&sl[..])).within()?))
+                })
+            },
+        }
     };
 }
 macro_rules! entries {
@@ -453,11 +509,14 @@ impl<C: BT> Arr3 for C {
     fn to_v(&self) -> Vec<f64> { self.to_arr() }
 }
 
-fn check_conv<A, B>(names: (&str, &str), comps: &[f64], obs: &mut Obs) -> PropResult
+/// checked conversion of a transparent colour, through the probe: None = no such impl; Some((ok, colour components, alpha))
+type AlphaTry = fn(&[f64]) -> Option<(bool, Vec<f64>, f64)>;
+
+fn check_conv<A, B>(names: (&str, &str), comps: &[f64], obs: &mut Obs, alpha_try: AlphaTry) -> PropResult
 where
     A: BT,
     B: BT + FromColorUnclamped<A> + FromColor<A> + TryFromColor<A>,
-    Alpha<B, B::F>: FromColorUnclamped<Alpha<A, A::F>> + FromColor<Alpha<A, A::F>> + TryFromColor<Alpha<A, A::F>> + Clamp + Copy + IsWithinBounds<Mask = bool>,
+    Alpha<B, B::F>: FromColorUnclamped<Alpha<A, A::F>> + FromColor<Alpha<A, A::F>> + Clamp + Copy,
     Alpha<A, A::F>: Copy,
 {
     let a = A::from_arr(&comps[..3]);
@@ -499,17 +558,15 @@ where
         let un = <Alpha<B, B::F>>::from_color_unclamped(aa);
         let al64 = Flt::to64(un.alpha);
         let want_ok = within && (0.0..=1.0).contains(&al64);
-        match <Alpha<B, B::F>>::try_from_color(aa) {
-            Ok(v) => {
-                ensure!(want_ok, "Alpha<{}>::try_from_color(Alpha<{}>{:?}, alpha {}) = Ok although colour within = {} and alpha = {}", names.1, names.0, a.to_arr(), Flt::to64(al), within, al64);
-                ensure!(same(&v.color.to_arr(), &uv) && Flt::to64(v.alpha) == al64, "Alpha<{}>::try_from_color Ok value differs from the unclamped result", names.1);
-            }
-            Err(e) => {
-                let ev = e.color();
-                ensure!(!want_ok, "Alpha<{}>::try_from_color(Alpha<{}>{:?}, alpha {}) = Err although colour and alpha are within bounds", names.1, names.0, a.to_arr(), Flt::to64(al));
-                ensure!(same(&ev.color.to_arr(), &uv) && Flt::to64(ev.alpha) == al64, "Alpha<{}>::try_from_color error does not carry the unclamped result", names.1);
-            }
+        let Some((ok, col, alpha)) = alpha_try(comps) else {
+            pv::fail!("Alpha<{}>::try_from_color(Alpha<{}>) does not exist: the checked conversion is not available for transparent colours (Alpha has no usable IsWithinBounds impl)", names.1, names.0);
+        };
+        if ok {
+            ensure!(want_ok, "Alpha<{}>::try_from_color(Alpha<{}>{:?}, alpha {}) = Ok although colour within = {} and alpha = {}", names.1, names.0, a.to_arr(), Flt::to64(al), within, al64);
+        } else {
+            ensure!(!want_ok, "Alpha<{}>::try_from_color(Alpha<{}>{:?}, alpha {}) = Err although colour and alpha are within bounds", names.1, names.0, a.to_arr(), Flt::to64(al));
         }
+        ensure!(same(&col, &uv) && alpha == al64, "Alpha<{}>::try_from_color {} does not carry the unclamped result", names.1, if ok { "Ok value" } else { "error" });
     }
     Ok(())
 }
@@ -523,7 +580,22 @@ struct ConvEntry {
 }
 macro_rules! conv {
     ($an:literal, $A:ty => $bn:literal, $B:ty) => {
-        ConvEntry { a: $an, b: $bn, spec: <$A as BT>::spec, f: check_conv::<$A, $B> }
+        ConvEntry {
+            a: $an,
+            b: $bn,
+            spec: <$A as BT>::spec,
+            f: |names, comps, obs| {
+                check_conv::<$A, $B>(names, comps, obs, |comps: &[f64]| {
+                    if comps.len() <= 3 {
+                        return None;
+                    }
+                    let aa = Alpha { color: <$A as BT>::from_arr(&comps[..3]), alpha: <<$A as BT>::F as Flt>::from64(comps[3]) };
+                    let r: Result<Alpha<$B, <$B as BT>::F>, Alpha<$B, <$B as BT>::F>> = Tw(aa, std::marker::PhantomData::<Alpha<$B, <$B as BT>::F>>).try_it()?;
+                    let (ok, v) = match r { Ok(v) => (true, v), Err(v) => (false, v) };
+                    Some((ok, v.color.to_arr(), Flt::to64(v.alpha)))
+                })
+            },
+        }
     };
 }
 macro_rules! convs {
